@@ -272,6 +272,63 @@ func streamChan(o *Out, r *rand.Rand, n int, thorough bool) {
 			o.Case(req.String(), implLine, src.String(), nitems > 0)
 		}
 	}
+	// (2b) fan-in: several producers into one channel; every item arrives exactly once, each producer's items in its order
+	nf := np / 4
+	if nf < 4 {
+		nf = 4
+	}
+	for it := 0; it < nf; it++ {
+		P := 2 + r.Intn(3)
+		N := 50 + r.Intn(250)
+		capN := r.Intn(4)
+		var src strings.Builder
+		if capN == 0 {
+			src.WriteString("c = make(chan int64)\n")
+		} else {
+			fmt.Fprintf(&src, "c = make(chan int64, %d)\n", capN)
+		}
+		src.WriteString("done = make(chan int64)\n")
+		fmt.Fprintf(&src, "for p = 0; p < %d; p++ {\ngo func(base) {\nfor i = 0; i < %d; i++ {\nc <- base + i\n}\ndone <- 1\n}(p * 100000)\n}\n", P, N)
+		fmt.Fprintf(&src, "go func() {\nfor k = 0; k < %d; k++ {\n<-done\n}\nclose(c)\n}()\nres = []\nfor x in c {\nres += x\n}\nres\n", P)
+		for _, p := range []int{2, 4, 16} {
+			runtime.GOMAXPROCS(p)
+			for rep := 0; rep < 2*reps; rep++ {
+				val, err, _, timedOut, panicked := runChanScript(src.String(), 20*time.Second)
+				o.Sum.Evaluations++
+				o.Sum.Hist[fmt.Sprintf("fan-in:procs%d", p)]++
+				in := fmt.Sprintf("[GOMAXPROCS=%d] %s", p, src.String())
+				if panicked != nil || timedOut || err != nil {
+					o.Fail(Failure{Oracle: "pipeline-delivers", Key: "fan-in-run", Input: in, Detail: fmt.Sprintf("err %v timeout %v panic %v", err, timedOut, panicked)})
+					break
+				}
+				got, _ := val.([]interface{})
+				next := make([]int64, P)
+				bad := ""
+				for _, g := range got {
+					v, _ := g.(int64)
+					pi := int(v / 100000)
+					if pi < 0 || pi >= P || v%100000 != next[pi] {
+						bad = fmt.Sprintf("item %d arrived when producer %d's next item was %d", v, pi, next[pi%P]+int64(pi)*100000)
+						break
+					}
+					next[pi]++
+				}
+				if bad == "" {
+					for pi := range next {
+						if next[pi] != int64(N) {
+							bad = fmt.Sprintf("producer %d sent %d items, %d arrived (total %d of %d)", pi, N, next[pi], len(got), P*N)
+							break
+						}
+					}
+				}
+				if bad != "" {
+					o.Fail(Failure{Oracle: "pipeline-delivers", Key: "fan-in-lost-or-reordered", Input: in, Detail: bad})
+					break
+				}
+			}
+		}
+		runtime.GOMAXPROCS(old)
+	}
 	// (3) templates
 	templates := []struct{ name, src, want string }{
 		{"go-args-captured", "c = make(chan int64, 1)\nx = 1\ngo func(a) {\nc <- a\n}(x)\nx = 2\n<-c", "1"},
